@@ -322,9 +322,34 @@ func loopHeaders(fn *ssa.Function) []*ssa.BasicBlock {
 // Effects is the transitive set of "Type.field" names a function may write (field stores, and element stores /
 // appends rooted at a load of that field are recorded as "Type.field[]").
 type Effects struct {
-	w      *World
-	direct map[*ssa.Function]map[string]bool
-	trans  map[*ssa.Function]map[string]bool
+	w       *World
+	direct  map[*ssa.Function]map[string]bool
+	trans   map[*ssa.Function]map[string]bool
+	directR map[*ssa.Function]map[string]bool
+	transR  map[*ssa.Function]map[string]bool
+}
+
+// localBase reports whether an address is rooted in a local variable of the function (an Alloc that is not
+// captured by a closure): accesses to it cannot conflict with another goroutine.
+func localBase(v ssa.Value) bool {
+	for i := 0; i < 20 && v != nil; i++ {
+		switch x := v.(type) {
+		case *ssa.FieldAddr:
+			v = x.X
+		case *ssa.IndexAddr:
+			v = x.X
+		case *ssa.Alloc:
+			for _, r := range *x.Referrers() {
+				if _, ok := r.(*ssa.MakeClosure); ok {
+					return false
+				}
+			}
+			return true
+		default:
+			return false
+		}
+	}
+	return false
 }
 
 func rootField(v ssa.Value) (string, bool) {
@@ -368,32 +393,52 @@ func rootField(v ssa.Value) (string, bool) {
 }
 
 func (w *World) effects() *Effects {
-	e := &Effects{w: w, direct: map[*ssa.Function]map[string]bool{}, trans: map[*ssa.Function]map[string]bool{}}
+	e := &Effects{w: w, direct: map[*ssa.Function]map[string]bool{}, trans: map[*ssa.Function]map[string]bool{},
+		directR: map[*ssa.Function]map[string]bool{}, transR: map[*ssa.Function]map[string]bool{}}
 	for _, fn := range w.Fns {
 		d := map[string]bool{}
+		rd := map[string]bool{}
 		allInstrs(fn, func(ins ssa.Instruction) {
 			switch x := ins.(type) {
 			case *ssa.Store:
-				if f, ok := rootField(x.Addr); ok {
+				if f, ok := rootField(x.Addr); ok && !localBase(x.Addr) {
 					d[f] = true
 				}
 			case *ssa.MapUpdate:
 				if f, ok := rootField(x.Map); ok {
 					d[f] = true
 				}
+			case *ssa.UnOp:
+				if x.Op == token.MUL {
+					if f, ok := rootField(x.X); ok && !localBase(x.X) {
+						rd[f] = true
+					}
+				}
+			case *ssa.Call:
+				if b, ok := x.Call.Value.(*ssa.Builtin); ok && (b.Name() == "append" || b.Name() == "copy") {
+					if f, ok := rootField(x.Call.Args[0]); ok {
+						d[f] = true
+					}
+				}
 			}
 		})
 		e.direct[fn] = d
+		e.directR[fn] = rd
 	}
 	// transitive closure over the call graph (incl. closures made and go/defer targets)
 	for _, fn := range w.Fns {
 		t := map[string]bool{}
+		tr := map[string]bool{}
 		for g := range w.Reachable(fn) {
 			for f := range e.direct[g] {
 				t[f] = true
 			}
+			for f := range e.directR[g] {
+				tr[f] = true
+			}
 		}
 		e.trans[fn] = t
+		e.transR[fn] = tr
 	}
 	return e
 }
